@@ -30,14 +30,14 @@ theorem strand_two (a b : Part) (h : a.strand = b.strand) : (Loc.compound [a, b]
 theorem cross_two_fwd_exact (x y st L : Int) (s : Strand) (hy0 : 0 < y) (hyx : y ≤ x) (hxL : x < L)
     (hst0 : 0 < st) (hstL : st < L) :
     ∃ r, offsetLocation (.compound [⟨x, L, s⟩, ⟨0, y, s⟩]) (-st) L = .ok r ∧
-      ((y < x ∧ st ≤ x ∧ y ≤ st ∧ wholeFix L r = .simple ⟨x + -st, y + -st + L, s⟩) ∨
-       (y = x ∧ wholeFix L r = .simple ⟨0, L, s⟩) ∨
-       (∃ a b, 0 < a ∧ wholeFix L r = .compound [⟨a, L, s⟩, ⟨0, b, s⟩])) := by
+      ((y < x ∧ st ≤ x ∧ y ≤ st ∧ r = .simple ⟨x + -st, y + -st + L, s⟩ ∧ wholeFix L r = r) ∨
+       (y = x ∧ r = .compound [⟨x, L, s⟩, ⟨0, y, s⟩] ∧ wholeFix L r = .simple ⟨0, L, s⟩) ∨
+       (¬ (st ≤ x ∧ y ≤ st) ∧ ∃ a b, 0 < a ∧ wholeFix L r = .compound [⟨a, L, s⟩, ⟨0, b, s⟩])) := by
   have hL0 : L ≠ 0 := by omega
   by_cases hwhole : y = x
   · subst hwhole
     have hlen : (Loc.compound [⟨y, L, s⟩, ⟨0, y, s⟩]).len = L := by rw [len_two]; simp
-    refine ⟨.compound [⟨y, L, s⟩, ⟨0, y, s⟩], ?_, .inr (.inl ⟨rfl, ?_⟩)⟩
+    refine ⟨.compound [⟨y, L, s⟩, ⟨0, y, s⟩], ?_, .inr (.inl ⟨rfl, rfl, ?_⟩)⟩
     · have hk : -st ≠ 0 := by omega
       have hlt : ¬ L < 1 := by omega
       simp [offsetLocation, hL0, hk, hlt, hlen, pure, Except.pure, bind, Except.bind]
@@ -54,14 +54,14 @@ theorem cross_two_fwd_exact (x y st L : Int) (s : Strand) (hy0 : 0 < y) (hyx : y
         simp only [List.cons_append, List.nil_append] at hgen
         rw [finishOffset_two_adj L ⟨x + -st, L + -st, s⟩ ⟨0 + -st + L, y + -st + L, s⟩ (by simp [PartIn]; omega)
           (by simp [PartIn]; omega) (by simp; omega) rfl] at hgen
-        refine ⟨_, hgen, .inl ⟨hyx', h1, h2, ?_⟩⟩
+        refine ⟨_, hgen, .inl ⟨hyx', h1, h2, rfl, ?_⟩⟩
         have hl : ¬ (Loc.simple ⟨x + -st, y + -st + L, s⟩).len = L := by simp [Loc.len, Loc.parts, Part.len]; omega
         simp [wholeFix, hl]
       · rw [wrapPart_straddle L ⟨0 + -st, y + -st, s⟩ (by simp; omega) (by simp; omega) (by simp; omega) (by simp; omega)] at hgen
         simp only [List.cons_append, List.nil_append] at hgen
         rw [finishOffset_three_first L ⟨x + -st, L + -st, s⟩ ⟨0 + -st + L, L, s⟩ ⟨0, y + -st, s⟩ (by simp [PartIn]; omega)
           (by simp [PartIn]; omega) (by simp [PartIn]; omega) (by simp; omega) rfl (by simp; omega)] at hgen
-        refine ⟨_, hgen, .inr (.inr ⟨x + -st, y + -st, by omega, ?_⟩)⟩
+        refine ⟨_, hgen, .inr (.inr ⟨by omega, x + -st, y + -st, by omega, ?_⟩)⟩
         have hl : ¬ (Loc.compound [⟨x + -st, L, s⟩, ⟨0, y + -st, s⟩]).len = L := by rw [len_two]; simp; omega
         simp only [wholeFix, hl, if_false]
     · rw [wrapPart_straddle L ⟨x + -st, L + -st, s⟩ (by simp; omega) (by simp; omega) (by simp; omega) (by simp; omega),
@@ -69,7 +69,7 @@ theorem cross_two_fwd_exact (x y st L : Int) (s : Strand) (hy0 : 0 < y) (hyx : y
       simp only [List.cons_append, List.nil_append] at hgen
       rw [finishOffset_three_last L ⟨x + -st + L, L, s⟩ ⟨0, L + -st, s⟩ ⟨0 + -st + L, y + -st + L, s⟩ (by simp [PartIn]; omega)
         (by simp [PartIn]; omega) (by simp [PartIn]; omega) (by simp; omega) (by simp; omega) rfl] at hgen
-      refine ⟨_, hgen, .inr (.inr ⟨x + -st + L, y + -st + L, by omega, ?_⟩)⟩
+      refine ⟨_, hgen, .inr (.inr ⟨by omega, x + -st + L, y + -st + L, by omega, ?_⟩)⟩
       have hl : ¬ (Loc.compound [⟨x + -st + L, L, s⟩, ⟨0, y + -st + L, s⟩]).len = L := by rw [len_two]; simp; omega
       simp only [wholeFix, hl, if_false]
 
@@ -184,8 +184,8 @@ theorem origin_loadKey (rd : RegionData) (rec : BioRecord) (hwf : wfInput rd rec
       rw [hr] at hl
       injection hl with hl
       subst hl
-      rcases hcase with ⟨hyx, hsx, hys, hw⟩ | ⟨hyx, hw⟩ | ⟨a', b', ha', hw⟩
-      · rw [hg, hw]
+      rcases hcase with ⟨hyx, hsx, hys, hr', hw⟩ | ⟨hyx, _, hw⟩ | ⟨_, a', b', ha', hw⟩
+      · rw [hg, hw, hr']
         have hn : ¬ (x - rd.start < 0) := by omega
         simp [loadKey_simple, posPair, positionKey, areaStart, Loc.strand, Loc.parts, hn, hbr, hc, Loc.len, Part.len]
         omega
